@@ -635,7 +635,12 @@ def grid_round(rep, r, tier):
         probes = [
             ('rows', dict(rows=series['rows'] + 1, pixels=np.zeros((series['rows'] + 1) * series['cols'])), 'IncongruentImageError'),
             ('cols', dict(cols=series['cols'] + 1, pixels=np.zeros(series['rows'] * (series['cols'] + 1))), 'IncongruentImageError'),
+            # the transposed matrix: the same two numbers, each under the other key
+            ('transposed', dict(rows=series['cols'], cols=series['rows'], pixels=np.zeros(series['rows'] * series['cols'])),
+             'IncongruentImageError' if series['rows'] != series['cols'] else 'ImageCollisionError'),
             ('spacing_far', dict(spacing=[series['spacing'][0] * 1.01, series['spacing'][1]]), 'IncongruentImageError'),
+            ('spacing_swapped', dict(spacing=[series['spacing'][1], series['spacing'][0]]),
+             'IncongruentImageError' if series['spacing'][0] != series['spacing'][1] else 'ImageCollisionError'),
             ('spacing_near', dict(spacing=[series['spacing'][0] + 1e-6, series['spacing'][1]]), 'ImageCollisionError'),
             ('orient_far', dict(iop=list(np.array(series['iop']) + np.array([0, 0.01, 0, 0, 0, 0]))), 'IncongruentImageError'),
             ('orient_near', dict(iop=list(np.array(series['iop']) + np.array([0, 1e-6, 0, 0, 0, 0]))), 'ImageCollisionError'),
